@@ -34,6 +34,10 @@ pub enum Step {
         /// pass the query as several command-line words (split at its blanks) instead of one
         #[serde(default, skip_serializing_if = "std::ops::Not::not")]
         split: bool,
+        /// make one system call of the program fail: (call, occurrence, errno), e.g. ("write", 3, "EINTR").
+        /// An interrupted call is not an error: the program must print what it prints otherwise.
+        #[serde(default, skip_serializing_if = "Option::is_none")]
+        inject: Option<(String, usize, String)>,
     },
     /// The capacity of the file system that holds the data directory (a small tmpfs mounted for
     /// histories that contain this step): from now on it has room for `free_pages` more 4 KiB pages
@@ -153,6 +157,8 @@ pub struct Ctx {
     pub q14_file: PathBuf,
     /// a second build of the same code with other embedded data (C15 "written for other data")
     pub alt: Option<Box<Alt>>,
+    /// the ptrace injector (strace) is usable in this sandbox
+    pub caps_strace: bool,
 }
 
 pub struct Alt {
@@ -278,7 +284,7 @@ pub fn run_history(ctx: &Ctx, h: &History, work: &Path, rotate: usize) -> Trace 
                 }
                 Some(out)
             }
-            Step::Cli { query, exact, describe, env, split } => {
+            Step::Cli { query, exact, describe, env, split, inject } => {
                 let mut args = Vec::new();
                 if *exact {
                     args.push("--exact".to_string());
@@ -294,7 +300,7 @@ pub fn run_history(ctx: &Ctx, h: &History, work: &Path, rotate: usize) -> Trace 
                 } else {
                     args.push(query.clone());
                 }
-                let out = ctx.launcher.any(&xdg, work, &args, env);
+                let out = ctx.launcher.any(&xdg, work, &args, env, inject.as_ref());
                 if let Some(e) = out.harness_error() {
                     trace.harness_errors.push(format!("step {i}: {e}"));
                 }
@@ -621,6 +627,45 @@ pub fn judge_c16(_ctx: &Ctx, h: &History, trace: &Trace) -> Vec<Violation> {
                         detail: "no shipped constant can be typed at all".into(),
                         focus: vec![],
                         signature: "C16.nothing-typeable".into(),
+                    });
+                }
+            }
+            // own words asked by caller threads (each query is one fact's words)
+            if let Event::Interleave { queries, .. } = e {
+                let mut bad: Vec<String> = Vec::new();
+                for q in queries {
+                    let words: Vec<&str> = q.text.trim_start_matches('{').trim_end_matches('}').split_whitespace().collect();
+                    let why = if q.results.len() != 1 {
+                        Some(format!("{} results", q.results.len()))
+                    } else if let Res::Err { msg, .. } = &q.results[0] {
+                        Some(format!("error: {msg}"))
+                    } else if q.descs.len() != 1 {
+                        Some(format!("{} descriptions", q.descs.len()))
+                    } else {
+                        let d = &q.descs[0];
+                        if let Some(w) = words.iter().find(|w| !d.tokens.iter().any(|t| t == *w)) {
+                            Some(format!("returned constant {:?} ({}) lacks the word {w:?}", d.tokens, d.description))
+                        } else if !d.source_resolves {
+                            Some(format!("source {:?} does not resolve", d.source))
+                        } else {
+                            match &q.results[0] {
+                                Res::Ok { num, den, unit, .. } if *num != d.num || *den != d.den || *unit != d.unit => Some(format!("value {num}/{den} {unit} is not the described constant's")),
+                                _ => None,
+                            }
+                        }
+                    };
+                    if let Some(why) = why {
+                        bad.push(format!("{:?}: {why}", q.text));
+                    }
+                }
+                if !bad.is_empty() {
+                    out.push(Violation {
+                        property: "C16".into(),
+                        clause: "C16.own-words-concurrent-callers".into(),
+                        step: i,
+                        detail: format!("{} of {} own-word queries asked by caller threads on one handle failed; e.g. {}", bad.len(), queries.len(), bad[0]),
+                        focus: vec![],
+                        signature: "C16.own-words-concurrent-callers".into(),
                     });
                 }
             }
